@@ -70,6 +70,12 @@ func B1(rc *RC) {
 		switch {
 		case !inCur && strings.HasSuffix(k, "transposeIndex"):
 			continue
+		case !inCur && !strings.Contains(k, ").") && !load.IsExportedKey(k):
+			// an unexported plain function of the default configuration's file only: a helper
+			// private to that file (were it referenced from common code this configuration
+			// would not type-check, which fails the run). Methods and exported functions stay
+			// under parity because method sets decide interface assertions at run time.
+			rc.S.Ok("B1", key, pos, "helper private to the default configuration's file").Trivial = true
 		case !inCur:
 			rc.S.Viol("B1", key, pos, fmt.Sprintf("%s exists in the default configuration but not under %s", k, rc.P.Config.Name)).Sig = "missing"
 		case !inRef:
